@@ -357,13 +357,16 @@ class StateEngine(object):
         https://docs.aws.amazon.com/step-functions/latest/dg/cw-events.html#cw-events-execution-succeeded
         illustrates startDate and stopDate as millisecond Timestamps and that
         seems to be the case for real with CW Events too, so we need to
-        convert to millis here. Rather than clone the whole dict just for
-        those two fields we save their original values and copy them back after
-        we broadcast the message.
+        convert to millis here, in a (shallow) copy of the execution detail.
         """
         saved_startDate = execution_detail["startDate"]
         saved_stopDate = execution_detail["stopDate"]
 
+        """
+        The stored record keeps seconds, so convert in a copy: if sending the
+        notification fails the record must not be left holding milliseconds.
+        """
+        execution_detail = dict(execution_detail)
         if saved_startDate:
             execution_detail["startDate"] = int(saved_startDate * 1000)
         if execution_detail["stopDate"]:
@@ -398,10 +401,6 @@ class StateEngine(object):
 
             subject = execution_detail["stateMachineArn"] + "." + execution_detail["status"]
             self.event_dispatcher.broadcast(subject, cw_event, carrier_properties=carrier)
-
-        # Copy the original seconds since epoch timestamps back.
-        execution_detail["startDate"] = saved_startDate
-        execution_detail["stopDate"] = saved_stopDate
 
     def start_execution(self, state_machine, start_state, event):
         """
